@@ -18,7 +18,7 @@ from rdflib.plugins.stores.memory import Memory, SimpleMemory  # noqa: E402
 TRUSTED = [
     "Coq 8.16.1 kernel and vm_compute",
     "harness/c01.py: translation of cases to rdflib calls and of rdflib answers to term numbers (harness/terms.py numbering never calls rdflib __eq__/__hash__)",
-    "coq/Store/Model.v is a faithful transcription of memory.py / graph.py (tied to the source by this correspondence check, not proved)",
+    "coq/Store/Model.v, Reads.v, StoreLevel.v, Iter.v are faithful transcriptions of memory.py / graph.py / Store.triples_choices (tied to the source by this correspondence check, not proved)",
     "CPython dict/set semantics as modelled in coq/Store/PyDict.v (insertion-ordered association list)",
 ]
 ASSUMPTIONS = [
@@ -26,6 +26,8 @@ ASSUMPTIONS = [
     "MA2: Memory.remove and Graph.__isub__ run over a live generator of the store's triples(); modelled as the list computed up front (both stores snapshot the key lists / triple set they walk, a removed triple is never revisited, removing one triple does not change another's entry)",
     "MA3: Graph.add always passes quoted=False, so the per-triple context dict is modelled by its key list",
     "MA4: Graph.__iadd__/addN consume the other graph lazily; Memory snapshots its triple set, SimpleMemory adds never resize a dict that is being walked, so the list computed up front is the same",
+    "MA5: Graph.value(any=True) returns the first matching term in dict insertion order; the model reproduces that order except after an insertion made while walking a Python set (+=, operator results) - then only 'some matching term / None iff none' is compared",
+    "store-level suite: contexts are Graph objects with identifiers from GRAPH_POOL, one per store key; Memory.add is never called with context=None",
     "terms are abstract identifiers with decidable equality; independence of the code from Python truthiness is established by the tie (falsy terms in every vocabulary), not by the theorems",
 ]
 RULE = ("histories: random operation sequences (add, addN, remove with all wildcard shapes, set, +=, -=, + - * ^) over 2-3 "
@@ -33,7 +35,10 @@ RULE = ("histories: random operation sequences (add, addN, remove with all wildc
         "stores (Memory/Memory, SimpleMemory/SimpleMemory, Memory/SimpleMemory); the graph a binary operator returns joins the graphs in play "
         "(it is mutated, used as operand and observed for the rest of the history; operands may be empty); after every operation every graph is observed through "
         "iteration, len and the 8 bound/unbound shapes of a probe triple (triples() and `in`). iterators: schedules of mutations, "
-        "open-iterator and next() steps on one Memory store. A case is distinct by its full content; non-trivial when it contains a removal "
+        "open-iterator and next() steps on one Memory store. reads: a history, then the derived read API (6 generators x unique, value x any, "
+        "triples_choices with 0-4 element lists incl. repeats) on every graph for 1-2 probes. storelevel: add/remove (context a graph or None, all "
+        "wildcard shapes)/add_graph/remove_graph on one Memory or SimpleMemory store, after every operation every context key incl. None is "
+        "observed (triples, len, 8 shapes) plus contexts() and contexts(probe). A case is distinct by its full content; non-trivial when it contains a removal "
         "or a set operator (histories) resp. a mutation between two steps of an open iterator (iterators).")
 
 
@@ -98,6 +103,37 @@ class World:
                 self.idents[tok] = fresh_ident(h[1])
             self.graphs[key] = Graph(store=self.stores[h[0]], identifier=self.idents[tok])
         return self.graphs[key]
+
+
+def exec_op(w, op):
+    """one operation of a history on real rdflib: (raised?, content of a binary operator's result)"""
+    raised, res = False, []
+    try:
+        kind = op[0]
+        if kind == "add":
+            w.graph(op[1]).add(tuple(term(x) for x in op[2]))
+        elif kind == "addN":
+            w.graph(op[1]).addN([tuple(term(x) for x in t) + (w.graph(h),) for t, h in op[2]])
+        elif kind == "rem":
+            w.graph(op[1]).remove(tuple(None if x is None else term(x) for x in op[2]))
+        elif kind == "set":
+            w.graph(op[1]).set(tuple(term(x) for x in op[2]))
+        elif kind == "iadd":
+            g = w.graph(op[1])
+            g += w.graph(op[2])
+        elif kind == "isub":
+            g = w.graph(op[1])
+            g -= w.graph(op[2])
+        elif kind == "bin":
+            a, b = w.graph(op[2]), w.graph(op[3])
+            slot = w.next_slot
+            w.next_slot += 1          # the model numbers the new stores by the operators executed
+            r = {"add": a.__add__, "sub": a.__sub__, "mul": a.__mul__, "xor": a.__xor__}[op[1]](b)
+            w.slots[slot] = r
+            res = sorted(tids(t) for t in r)
+    except Exception:  # noqa: BLE001
+        raised = True
+    return raised, res
 
 
 class Histories(Suite):
@@ -217,32 +253,7 @@ class Histories(Suite):
         w = World(case["k0"], case["k1"])
         obs = []
         for op, probe in case["ops"]:
-            raised, res = False, []
-            try:
-                kind = op[0]
-                if kind == "add":
-                    w.graph(op[1]).add(tuple(term(x) for x in op[2]))
-                elif kind == "addN":
-                    w.graph(op[1]).addN([tuple(term(x) for x in t) + (w.graph(h),) for t, h in op[2]])
-                elif kind == "rem":
-                    w.graph(op[1]).remove(tuple(None if x is None else term(x) for x in op[2]))
-                elif kind == "set":
-                    w.graph(op[1]).set(tuple(term(x) for x in op[2]))
-                elif kind == "iadd":
-                    g = w.graph(op[1])
-                    g += w.graph(op[2])
-                elif kind == "isub":
-                    g = w.graph(op[1])
-                    g -= w.graph(op[2])
-                elif kind == "bin":
-                    a, b = w.graph(op[2]), w.graph(op[3])
-                    slot = w.next_slot
-                    w.next_slot += 1          # the model numbers the new stores by the operators executed
-                    r = {"add": a.__add__, "sub": a.__sub__, "mul": a.__mul__, "xor": a.__xor__}[op[1]](b)
-                    w.slots[slot] = r
-                    res = sorted(tids(t) for t in r)
-            except Exception:  # noqa: BLE001
-                raised = True
+            raised, res = exec_op(w, op)
             pt = tuple(term(x) for x in probe)
             per = []
             for hd in case["handles"]:
@@ -549,4 +560,287 @@ class Iterators(Suite):
                         yield {"ops": [list(o) for o in setup] + [["open", 1, pat]] + [list(o) for o in seq] + [["drain", 0]]}
 
 
-SUITES = [Histories(), Iterators()]
+def masks2(a, b):
+    return [(None, None), (a, None), (None, b), (a, b)]
+
+
+class Reads(Suite):
+    """the derived read API at the end of a history, on every graph in play"""
+    name = "reads"
+    imports = "From RV Require Import Store.Reads."
+    case_ty = "rcase"
+    obs_ty = "robs"
+    model = "rmodel_obs"
+    oeq = "robs_eqb"
+    spec = "rspec_ok"
+    corr = ("Graph.subjects/predicates/objects/subject_predicates/subject_objects/predicate_objects (unique False/True), "
+            "Graph.value (any True/False), Graph.triples_choices + Store.triples_choices")
+    quick_n = 220
+    thorough_n = 8000
+    timeout_s = 20.0
+
+    # case = a histories case + "probes": [[t, L]...]  (L: the list put into one slot of triples_choices)
+
+    def gen(self, rng, i):
+        base = HISTORIES.gen(rng, 0 if i % 12 != 11 else 11)
+        terms = sorted({x for op, pr in base["ops"] for x in pr})
+        probes = []
+        for _ in range(rng.choice([1, 2, 2])):
+            t = list(rng.choice(base["ops"])[1])
+            L = [rng.choice(terms + [12]) for _ in range(rng.choice([0, 1, 2, 2, 3]))]
+            if L and rng.random() < 0.3:
+                L.append(L[0])      # the same term twice: triples_choices repeats its triples
+            probes.append([t, L])
+        base["probes"] = probes
+        return base
+
+    def run_impl(self, case):
+        w = World(case["k0"], case["k1"])
+        for op, _ in case["ops"]:
+            exec_op(w, op)
+        ordered = all(op[0] not in ("iadd", "bin") for op, _ in case["ops"])
+        out = []
+        for hd in case["handles"]:
+            g = w.graph(hd)
+            per = []
+            for t, L in case["probes"]:
+                s, p, o = (term(x) for x in t)
+                Lt = [term(x) for x in L]
+                try:
+                    o1 = []
+                    for a, b in masks2(p, o):
+                        o1 += [[term_id(x) for x in g.subjects(a, b, unique=u)] for u in (False, True)]
+                    for a, b in masks2(s, o):
+                        o1 += [[term_id(x) for x in g.predicates(a, b, unique=u)] for u in (False, True)]
+                    for a, b in masks2(s, p):
+                        o1 += [[term_id(x) for x in g.objects(a, b, unique=u)] for u in (False, True)]
+                    o2 = []
+                    for a in (None, o):
+                        o2 += [[[term_id(x), term_id(y)] for x, y in g.subject_predicates(a, unique=u)] for u in (False, True)]
+                    for a in (None, p):
+                        o2 += [[[term_id(x), term_id(y)] for x, y in g.subject_objects(a, unique=u)] for u in (False, True)]
+                    for a in (None, s):
+                        o2 += [[[term_id(x), term_id(y)] for x, y in g.predicate_objects(a, unique=u)] for u in (False, True)]
+                    o3 = []
+                    for q in [(s, p, None), (None, p, o), (s, None, o), (s, None, None), (None, p, None), (None, None, o), (None, None, None)]:
+                        for any_ in (True, False):
+                            try:
+                                v = g.value(q[0], q[1], q[2], default=None, any=any_)
+                                o3.append([0, 0] if v is None else [1, term_id(v)])
+                            except rdflib.exceptions.UniquenessError:
+                                o3.append([2, 0])
+                    o4 = []
+                    for q in [(s, p, Lt), (None, p, Lt), (Lt, p, o), (Lt, None, None), (s, Lt, o), (None, Lt, None)]:
+                        o4.append([tids(x) for x in g.triples_choices(q)])
+                except Exception:  # noqa: BLE001
+                    o1, o2, o3, o4 = [[997]], [], [], []
+                per.append([o1, o2, o3, o4])
+            out.append(per)
+        return [ordered, out]
+
+    def on_timeout(self, case):
+        return [False, []]
+
+    def coq_case(self, case):
+        probes = clist(ctuple(c_triple(t), clist(cN(x) for x in L)) for t, L in case["probes"])
+        return "{| r_c := " + HISTORIES.coq_case(case) + "; r_probes := " + probes + " |}"
+
+    def coq_obs(self, obs):
+        def one(x):
+            o1, o2, o3, o4 = x
+            return ctuple(clist(clist(cN(a) for a in l) for l in o1),
+                          clist(clist(ctuple(cN(a), cN(b)) for a, b in l) for l in o2),
+                          clist(ctuple(cN(k), cN(v)) for k, v in o3),
+                          clist(c_tl(l) for l in o4))
+        return ctuple(cbool(obs[0]), clist(clist(one(x) for x in per) for per in obs[1]))
+
+    def nontrivial(self, case, obs):
+        return any(any(any(l for l in x[0]) for x in per) for per in obs[1])
+
+    def features(self, case, obs):
+        f = {"ordered": int(obs[0]), "probes": len(case["probes"]), "graphs": len(case["handles"])}
+        for per in obs[1]:
+            for o1, o2, o3, o4 in per:
+                f["value_some"] = f.get("value_some", 0) + sum(1 for k, _ in o3 if k == 1)
+                f["value_uniqueness_error"] = f.get("value_uniqueness_error", 0) + sum(1 for k, _ in o3 if k == 2)
+                f["generator_with_duplicates"] = f.get("generator_with_duplicates", 0) + sum(1 for l in o1 if len(l) != len(set(l)))
+                f["choices_nonempty"] = f.get("choices_nonempty", 0) + sum(1 for l in o4 if l)
+        f["choice_list_empty"] = sum(1 for _, L in case["probes"] if not L)
+        f["choice_list_repeats"] = sum(1 for _, L in case["probes"] if len(L) != len(set(L)))
+        return f
+
+    def shrink(self, case):
+        for c in HISTORIES.shrink(case):
+            yield c
+        for i in range(len(case["probes"])):
+            if len(case["probes"]) > 1:
+                yield dict(case, probes=case["probes"][:i] + case["probes"][i + 1:])
+
+
+class StoreLevel(Suite):
+    """Memory / SimpleMemory driven through the Store interface, context=None included"""
+    name = "storelevel"
+    imports = "From RV Require Import Store.StoreLevel."
+    case_ty = "tcase"
+    obs_ty = "tobs"
+    model = "tmodel_obs"
+    oeq = "tobs_eqb"
+    spec = "tspec_ok"
+    corr = ("Memory.add/remove/triples/__len__ with context=None or a graph, Memory.contexts()/contexts(triple)/add_graph/remove_graph; "
+            "SimpleMemory.add/remove/triples/__len__ with any context")
+    quick_n = 300
+    thorough_n = 10000
+    timeout_s = 20.0
+
+    # case = {"simple": bool, "keys": [cid|None...], "ops": [[op, probe]...]}
+    # op = ["add", cid, t] | ["rem", cid|None, pat] | ["add_graph", cid] | ["remove_graph", cid]
+
+    def gen(self, rng, i):
+        simple = rng.random() < 0.2
+        subs = rng.sample([1, 2, 5, 6, 8], rng.choice([2, 2, 3]))
+        preds = rng.sample([3, 4, 7], rng.choice([1, 2]))
+        objs = rng.sample([1, 5, 6, 7, 9, 10, 14], rng.choice([2, 2, 3]))
+        pool = [[s, p, o] for s in subs for p in preds for o in objs]
+        rng.shuffle(pool)
+        pool = pool[: rng.choice([2, 3, 4, 5, 6])]
+        cids = rng.sample([1, 2, 3, 4, 5], rng.choice([1, 2, 2, 3]))
+        n = rng.choice([2, 3, 4, 5, 6, 8, 10, 12]) if i % 12 != 11 else rng.randint(15, 35)
+        ops = []
+        for _ in range(n):
+            r = rng.random()
+            t = rng.choice(pool)
+            c = rng.choice(cids)
+            if r < 0.42:
+                op = ["add", c, t]
+            elif r < 0.52:
+                op = ["rem", c, t]
+            elif r < 0.64:
+                op = ["rem", c, [x if rng.random() < 0.5 else None for x in t]]
+            elif r < 0.74:
+                op = ["rem", None, t]
+            elif r < 0.84:
+                op = ["rem", None, [x if rng.random() < 0.5 else None for x in t]]
+            elif r < 0.92 and not simple:
+                op = ["remove_graph", c]
+            elif not simple:
+                op = ["add_graph", rng.choice(cids + [c for c in (1, 2, 3, 4, 5) if c not in cids][:1])]
+            else:
+                op = ["add", c, t]
+            pr = rng.random()
+            probe = list(t) if pr < 0.6 else list(rng.choice(pool))
+            if pr > 0.9:
+                probe[rng.choice([0, 1, 2])] = 12
+            ops.append([op, probe])
+        return {"simple": simple, "keys": [None] + cids, "ops": ops}
+
+    def run_impl(self, case):
+        store = SimpleMemory() if case["simple"] else Memory()
+        graphs = {}
+
+        def ctx(c):
+            if c is None:
+                return None
+            if c not in graphs:
+                graphs[c] = Graph(store=store, identifier=GRAPH_POOL[c - 1])
+            return graphs[c]
+
+        def gid(x):
+            ident = x.identifier if hasattr(x, "identifier") else x
+            return {str(type(g).__name__) + ":" + str(g): i + 1 for i, g in enumerate(GRAPH_POOL)}.get(
+                type(ident).__name__ + ":" + str(ident), 998)
+
+        obs = []
+        for op, probe in case["ops"]:
+            try:
+                k = op[0]
+                if k == "add":
+                    store.add(tuple(term(x) for x in op[2]), ctx(op[1]))
+                elif k == "rem":
+                    store.remove(tuple(None if x is None else term(x) for x in op[2]), ctx(op[1]))
+                elif k == "add_graph":
+                    store.add_graph(ctx(op[1]))
+                elif k == "remove_graph":
+                    store.remove_graph(ctx(op[1]))
+                pt = tuple(term(x) for x in probe)
+                ks = []
+                for key in case["keys"]:
+                    c = ctx(key)
+                    ks.append([sorted(tids(t) for t, _ in store.triples((None, None, None), c)),
+                               store.__len__(context=c),
+                               [sorted(tids(t) for t, _ in store.triples(m, c)) for m in masks(pt)]])
+                if case["simple"]:
+                    cs, cof = [], []
+                else:
+                    cs = sorted(gid(x) for x in store.contexts())
+                    cof = sorted(gid(x) for x in store.contexts(pt))
+                obs.append([ks, cs, cof])
+            except Exception:  # noqa: BLE001
+                obs.append([[], [997], [997]])
+        return obs
+
+    def on_timeout(self, case):
+        return [[[], [997], [997]]]
+
+    def coq_case(self, case):
+        ops = []
+        for op, probe in case["ops"]:
+            k = op[0]
+            if k == "add":
+                o = f"TAdd {cN(op[1])} {c_triple(op[2])}"
+            elif k == "rem":
+                o = f"TRemove {copt(op[1], cN)} {c_pat(op[2])}"
+            elif k == "add_graph":
+                o = f"TAddGraph {cN(op[1])}"
+            else:
+                o = f"TRemoveGraph {cN(op[1])}"
+            ops.append(ctuple(o, c_triple(probe)))
+        return ("{| tc_simple := " + cbool(case["simple"]) + "; tc_keys := " + clist(copt(k, cN) for k in case["keys"])
+                + "; tc_ops := " + clist(ops) + " |}")
+
+    def coq_obs(self, obs):
+        def ko(x):
+            it, ln, ps = x
+            return ctuple(c_tl(it), cN(ln), clist(c_tl(p) for p in ps))
+        return clist(ctuple(clist(ko(x) for x in ks), clist(cN(c) for c in cs), clist(cN(c) for c in cof))
+                     for ks, cs, cof in obs)
+
+    def nontrivial(self, case, obs):
+        return any(op[0] in ("rem", "remove_graph") for op, _ in case["ops"])
+
+    def features(self, case, obs):
+        f = {"ops_total": len(case["ops"]), "store_" + ("simple" if case["simple"] else "memory"): 1}
+        for op, _ in case["ops"]:
+            k = op[0]
+            if k == "rem":
+                k = ("rem_noctx_" if op[1] is None else "rem_ctx_") + "".join("b" if x is not None else "w" for x in op[2])
+            f["op_" + k] = f.get("op_" + k, 0) + 1
+        f["triple_in_several_graphs"] = sum(1 for _, _, cof in obs if len(cof) > 1)
+        return f
+
+    def shrink(self, case):
+        ops = case["ops"]
+        for i in range(len(ops)):
+            yield dict(case, ops=ops[:i] + ops[i + 1:])
+
+    def sweep(self):
+        """all store-level histories of length <= 4 over 2 triples x 2 graphs (removes with and without context, remove_graph)"""
+        ts = [[1, 3, 5], [1, 3, 6]]
+        alphabet = []
+        for c in (1, 2):
+            for t in ts:
+                alphabet.append(["add", c, t])
+            alphabet.append(["rem", c, ts[0]])
+            alphabet.append(["remove_graph", c])
+        alphabet.append(["rem", None, ts[0]])
+        alphabet.append(["rem", None, [1, None, None]])
+        alphabet.append(["rem", 1, [None, 3, None]])
+        alphabet.append(["add_graph", 2])
+        for n in (1, 2, 3, 4):
+            for seq in itertools.product(alphabet, repeat=n):
+                if n == 4 and seq[0][0] != "add":
+                    continue
+                yield {"simple": False, "keys": [None, 1, 2], "ops": [[list(o), [1, 3, 5]] for o in seq]}
+
+
+HISTORIES = Histories()
+SUITES = [HISTORIES, Iterators(), Reads(), StoreLevel()]
